@@ -517,6 +517,9 @@ def run_job(job, packages, known, replay_dir):
     except Exception as e:
         rec['errors'].append('harness exception %s: %s' % (type(e).__name__, e))
         rec['trace'] = traceback.format_exc()[-2500:]
+    from . import shim_numpy as _sn
+    for nm in sorted(_sn.C_BOUNDARY):
+        rec['stub_assumptions'].append('numpy.%s entered with concretised arguments (C boundary, path forks over feasible values)' % nm)
     rec['obligations'] = list(goal_names.values())
     rec['xcheck'] = dict(done=XCHECK['done'], agree=XCHECK['agree'], skipped=XCHECK['skipped'])
     for e in XCHECK['errors']:
